@@ -275,6 +275,7 @@ func (x *Exec) havocLoop(st *State, fr *Frame, to *ssa.BasicBlock, li *loopInfo)
 			fr.names[phi.Comment] = v
 		}
 	}
+	x.loopPrecise = map[string][]preciseWrite{}
 	all, keys := x.loopWrites(st, fr, to.Index, li)
 	if all {
 		x.havocAll(st, "loop body of "+fnRelName(fr.fn))
@@ -282,6 +283,39 @@ func (x *Exec) havocLoop(st *State, fr *Frame, to *ssa.BasicBlock, li *loopInfo)
 	}
 	for k, srt := range keys {
 		x.havocKey(st, k, srt)
+	}
+	for k, ws := range x.loopPrecise {
+		if _, whole := keys[k]; whole {
+			continue
+		}
+		for _, w := range ws {
+			arr := x.heapGet(st, k, w.sort)
+			_, vs := arrSorts(arr.sort)
+			st.heap[k] = Store(arr, w.base, x.freshConst(st, "hvl", vs))
+		}
+	}
+}
+
+type preciseWrite struct {
+	base *Term
+	sort string
+}
+
+// chainStart follows field and array-element address computations back to the value the
+// address is derived from (a pointer, or the slice whose element is addressed).
+func chainStart(addr ssa.Value) ssa.Value {
+	for {
+		switch a := addr.(type) {
+		case *ssa.FieldAddr:
+			addr = a.X
+		case *ssa.IndexAddr:
+			if _, isSlice := a.X.Type().Underlying().(*types.Slice); isSlice {
+				return a.X
+			}
+			addr = a.X
+		default:
+			return addr
+		}
 	}
 }
 
@@ -305,8 +339,32 @@ func (x *Exec) loopWrites(st *State, fr *Frame, h int, li *loopInfo) (all bool, 
 					if root == "local" {
 						continue
 					}
+					// a store through an address that is fixed for the whole loop (its chain starts
+					// at a value defined before the loop) only touches that one object
+					var base *Term
+					if outer != nil && blocks != nil {
+						start := chainStart(in.Addr)
+						instr, isInstr := start.(ssa.Instruction)
+						if !isInstr || instr.Block() == nil || !blocks[instr.Block().Index] {
+							if v, has := outer.regs[start]; has {
+								switch v.K {
+								case kPtr:
+									base = v.L.Base
+								case kSlice:
+									base = v.Arr
+								}
+							}
+						} else if al, isAlloc := start.(*ssa.Alloc); isAlloc && !al.Heap {
+							continue // a non-escaping variable allocated afresh in every iteration
+						}
+					}
 					for _, lf := range flatten(in.Val.Type()) {
-						keys[root+"|"+path+lf.Path] = lf.Sort
+						k := root + "|" + path + lf.Path
+						if base != nil {
+							x.loopPrecise[k] = append(x.loopPrecise[k], preciseWrite{base: base, sort: lf.Sort})
+						} else {
+							keys[k] = lf.Sort
+						}
 					}
 				case *ssa.MapUpdate:
 					mt := in.Map.Type().Underlying().(*types.Map)
